@@ -1,6 +1,7 @@
 import CE.Rules.Machine
 import CE.Rules.Table
 import CE.Rules.Markers
+import CE.Rules.Pending
 /-
   C13 — markers and local references are consistent in every accepted document.
 
@@ -16,7 +17,10 @@ import CE.Rules.Markers
   CE/Rules/Markers.lean - what the validator "covers" only grows under each of the 45 statement
   kinds, under nested rule calls and under every event; the end of the document is accepted only
   with nothing waiting).  and `registered_markers_are_distinct` - in every state the validator reaches on any stream no
-  marker identifier is registered twice.  The type masks over whole documents are
+  marker identifier is registered twice; `pending_references_never_name_a_registered_marker` - in every
+  state the validator reaches on any stream, no waiting (forward) reference names an identifier that is
+  already registered (CE/Rules/Pending.lean), so what `endDocument` finds waiting is exactly the set of
+  references whose marker never came.  The type masks over whole documents are
   `…_partial`: exercised by the WF.REL oracle against the independent grammar's global
   conditions (`Spec.globalOK`) on every run.
 -/
@@ -115,6 +119,21 @@ theorem every_reference_of_an_accepted_document_has_its_marker (env : Env) (htbl
 theorem registered_markers_are_distinct (env : Env) (evs : List Ev) :
     ((run env RState.init evs 0).2.2.marked.map (·.1)).Nodup :=
   run_distinct env evs RState.init 0 (by simp [MarkersDistinct, RState.init])
+
+/-- the table of waiting references never names a registered marker, on any stream, accepted or not:
+    a reference waits only while its marker has not come, and registering the marker removes it -/
+theorem pending_references_never_name_a_registered_marker (env : Env) (evs : List Ev) (x : Bytes)
+    (hx : x ∈ (run env RState.init evs 0).2.2.forward.map (·.1)) :
+    lookupForward (run env RState.init evs 0).2.2.marked x = none :=
+  run_pend env evs RState.init 0 (by intro y hy; simp [RState.init] at hy) x hx
+
+/-- non-vacuity of the above: after a forward reference the table is not empty, and it is empty again
+    once the marker has come -/
+example :
+    let env : Env := { tbl := Model.ruleTable, identSafe := fun _ => true }
+    (run env RState.init [.beginDoc, .version 0, .list, .refLocal [97]] 0).2.2.forward.map (·.1) = [[97]] ∧
+    (run env RState.init [.beginDoc, .version 0, .list, .refLocal [97], .marker [97], .posInt 1] 0).2.2.forward = [] := by
+  decide +kernel
 
 /-- non-vacuity: a list with a forward reference and its marker is accepted -/
 example :
